@@ -11,7 +11,7 @@ use crate::adversary as adv;
 use crate::scenarios::conn::{node_cfg, settle, shutdown, Opts};
 use crate::scenarios::rpc::{req_header_size, spawn_call, Call};
 use crate::sim::{self, Sim};
-use anemo::{Config, Request};
+use anemo::Request;
 use bytes::Bytes;
 use rand::{rngs::StdRng, Rng, SeedableRng};
 use rustls::pki_types::CertificateDer;
@@ -19,11 +19,7 @@ use serde_json::{json, Value};
 use std::time::Duration;
 
 fn valid_request(route: &str, headers: &[(&str, &str)], body: &[u8]) -> Vec<u8> {
-    let mut r = Request::new(Bytes::copy_from_slice(body)).with_route(route);
-    for (k, v) in headers {
-        r.headers_mut().insert((*k).into(), (*v).into());
-    }
-    futures::executor::block_on(anemo::verif::direct::write_request(&Config::default(), Vec::new(), r)).unwrap()
+    adv::encode_request(route, headers, body)
 }
 
 /// byte strings per decoder error class (and some that are merely odd)
@@ -158,16 +154,16 @@ async fn run(mut sim: Sim, seed: u64, streams: usize) -> Result<Value, String> {
                     "VIOLATION: the victim ended the hostile peer's connection while that peer kept it open ({e}): a malformed, truncated, reset or abandoned request must affect its own stream only"))?;
                 let run = sim.run.clone();
                 honest.push(tokio::spawn(async move {
-                    let r: anyhow::Result<anemo::Response<Bytes>> = async {
+                    let r: anyhow::Result<adv::RawResponse> = async {
                         tx.write_all(&bytes).await?;
                         tx.finish()?;
                         let data = rx.read_to_end(1 << 20).await?;
-                        Ok(anemo::verif::direct::read_response(&Config::default(), &data[..]).await?)
+                        adv::decode_response(&data[..])
                     }.await;
                     match r {
-                        Ok(resp) => run.obs(100, "obs.rpc_result", json!({"nonce": nonce, "ok": true, "status": resp.status().to_u16(),
-                            "len": resp.body().len(), "digest": sim::digest(resp.body()), "hdigest": sim::headers_digest(resp.headers()),
-                            "resp_nonce": resp.headers().get("nonce").and_then(|v| v.parse::<u64>().ok()), "must_succeed": true, "raw": true})),
+                        Ok(resp) => run.obs(100, "obs.rpc_result", json!({"nonce": nonce, "ok": true, "status": resp.status,
+                            "len": resp.body.len(), "digest": sim::digest(&resp.body), "hdigest": sim::headers_digest(&resp.headers),
+                            "resp_nonce": resp.headers.get("nonce").and_then(|v| v.parse::<u64>().ok()), "must_succeed": true, "raw": true})),
                         Err(e) => run.obs(100, "obs.rpc_result", json!({"nonce": nonce, "ok": false, "err": format!("{e}"), "must_succeed": true})),
                     }
                 }));
@@ -246,16 +242,16 @@ async fn run(mut sim: Sim, seed: u64, streams: usize) -> Result<Value, String> {
                 tx.write_all(&bytes).await?;
                 tx.finish()?;
                 let data = rx.read_to_end(1 << 20).await?;
-                anyhow::Ok(anemo::verif::direct::read_response(&Config::default(), &data[..]).await?)
+                adv::decode_response(&data[..])
             };
-            let r: anyhow::Result<anemo::Response<Bytes>> = match tokio::time::timeout(Duration::from_secs(3), exchange).await {
+            let r: anyhow::Result<adv::RawResponse> = match tokio::time::timeout(Duration::from_secs(3), exchange).await {
                 Ok(r) => r,
                 Err(_) => Err(anyhow::anyhow!("the request could not even be sent / was not answered")),
             };
             match r {
-                Ok(resp) => sim.run.obs(100, "obs.rpc_result", json!({"nonce": nonce, "ok": true, "status": resp.status().to_u16(),
-                    "len": resp.body().len(), "digest": sim::digest(resp.body()), "hdigest": sim::headers_digest(resp.headers()),
-                    "resp_nonce": resp.headers().get("nonce").and_then(|v| v.parse::<u64>().ok()), "must_succeed": true, "raw": true})),
+                Ok(resp) => sim.run.obs(100, "obs.rpc_result", json!({"nonce": nonce, "ok": true, "status": resp.status,
+                    "len": resp.body.len(), "digest": sim::digest(&resp.body), "hdigest": sim::headers_digest(&resp.headers),
+                    "resp_nonce": resp.headers.get("nonce").and_then(|v| v.parse::<u64>().ok()), "must_succeed": true, "raw": true})),
                 Err(e) => sim.run.obs(100, "obs.rpc_result", json!({"nonce": nonce, "ok": false, "err": format!("no answer within 3 s behind {trailing} bytes of trailing data on 12 pending requests: {e}"), "must_succeed": true})),
             }
             for (tx, rx) in kept {
